@@ -88,10 +88,10 @@ fn seven_c(sk: &CompactThetaSketch) -> [f64; 7] {
     ]
 }
 
-fn obs_of(s: &[f64; 7], emp: bool, n: usize) -> Value {
+fn obs_of(s: &[f64; 7], emp: bool, n: usize, estm: bool) -> Value {
     let est = s[3];
     let estn: i64 = if est.fract() == 0.0 && est >= 0.0 && est < 2e9 { est as i64 } else { -1 };
-    json!({"b": ranks(s), "estn": estn, "ubpos": s[5] > 0.0, "emp": emp, "n": n, "est0": est == 0.0})
+    json!({"b": ranks(s), "estn": estn, "ubpos": s[5] > 0.0, "emp": emp, "n": n, "est0": est == 0.0, "estm": estm})
 }
 
 fn toks(s: &[f64; 7]) -> Value {
@@ -242,7 +242,7 @@ pub fn run(out: &mut Shards, scn: &str, lgk: u8, rf: u8, p: f32, seed: u64, ops:
             return;
         }
         let rebuilt = sk.theta64() != before_theta || (matches!(op, Op::Trim) && sk.num_retained() != before_n);
-        let o = obs_of(&seven_u(&sk), sk.is_empty(), sk.num_retained());
+        let o = obs_of(&seven_u(&sk), sk.is_empty(), sk.num_retained(), sk.is_estimation_mode());
         match op {
             Op::Item(_) | Op::Str(_) | Op::Hash(_) => {
                 let hv = match op {
@@ -286,7 +286,7 @@ pub fn run(out: &mut Shards, scn: &str, lgk: u8, rf: u8, p: f32, seed: u64, ops:
                     "tok":[toks(&seven_u(&sk)), toks(&seven_c(&c))],
                     "eb":ents.iter().map(|&e| le8(e)).collect::<Vec<_>>(),"tb":le8(c.theta64()),"sh":sh.to_le_bytes().to_vec(),
                     "img3":img3,"img4":img4,"v4ref":v4ref,
-                    "o":obs_of(&seven_c(&c), c.is_empty(), c.num_retained())}));
+                    "o":obs_of(&seven_c(&c), c.is_empty(), c.num_retained(), c.is_estimation_mode())}));
                 // C13: the same compact state as an image of every serial version
                 if ents.len() <= 300 {
                     let mut sorted = ents.clone();
@@ -313,7 +313,7 @@ pub fn run(out: &mut Shards, scn: &str, lgk: u8, rf: u8, p: f32, seed: u64, ops:
                                 let mut e = base;
                                 e["ok"] = json!(true);
                                 e["c"] = cstate(&b, &rk);
-                                e["o"] = obs_of(&seven_c(&b), b.is_empty(), b.num_retained());
+                                e["o"] = obs_of(&seven_c(&b), b.is_empty(), b.num_retained(), b.is_estimation_mode());
                                 out.ev(e);
                             }
                             Ok(Err(err)) => {
@@ -347,7 +347,7 @@ pub fn run(out: &mut Shards, scn: &str, lgk: u8, rf: u8, p: f32, seed: u64, ops:
                             out.ev(json!({"op":"CRT","id":cid,"form":form,"to":to,"c":cstate(&b, &rk),
                                 "tok":[toks(&seven_c(&c)), toks(&seven_c(&b))],"same":again == bytes,
                                 "len":bytes.len(),
-                                "o":obs_of(&seven_c(&b), b.is_empty(), b.num_retained())}));
+                                "o":obs_of(&seven_c(&b), b.is_empty(), b.num_retained(), b.is_estimation_mode())}));
                         }
                         Ok((_, Err(e))) => {
                             out.ev(json!({"op":"Panic","in":format!("deserialize-own-image-{form}"),"key":"Err","msg":e}));
